@@ -18,6 +18,17 @@ Proof. exact inv_struct_valid. Qed.
 Theorem C05_oracle_accepts_invariant : forall s tip, Inv s tip -> struct_validb s = true.
 Proof. exact inv_struct_validb. Qed.
 
+(* ... and whatever it accepts IS structurally valid in the statement's words, read off the raw table *)
+Theorem C05_oracle_sound : forall s, struct_validb s = true ->
+  0 <= maxLh s /\
+  (forall h, 0 <= h <= maxLh s ->
+     exists x, In x s /\ st x = Longest /\ height x = h /\
+               forall y, In y s -> st y = Longest -> height y = h -> y = x) /\
+  (forall r, In r s -> st r = Longest -> height r <= maxLh s) /\
+  (forall r, In r s -> st r = Longest -> height r <> 0 ->
+     exists q, In q s /\ st q = Longest /\ id q = prev r /\ height q + 1 = height r).
+Proof. exact struct_validb_sound. Qed.
+
 Theorem C05_crash_states_pass_oracle : forall f s tip h k, Inv s tip -> s_id h <> 0%N -> struct_validb (crash_state f s h k) = true.
 Proof. exact crash_state_passes_oracle. Qed.
 
@@ -70,6 +81,7 @@ Proof. exact restart_noop. Qed.
 
 Print Assumptions C05_invariant_meaning.
 Print Assumptions C05_oracle_accepts_invariant.
+Print Assumptions C05_oracle_sound.
 Print Assumptions C05_crash_states_pass_oracle.
 Print Assumptions C05_reachable_valid.
 Print Assumptions C05_valid_everywhere.
